@@ -11,30 +11,39 @@ from vlib.common import run as sh
 from checks import interpgen as G
 
 MANIFEST = {
-    "text": "Lean theorems over an executable model of lm/interpolate (union vocabulary + renumbering, per-component "
-            "longest-suffix score with back-offs charged below each component's top order, the incremental normaliser of "
-            "normalize.cc, the output ARPA entries, the back-off-record accounting of pass 2/3): the telescoping identity "
-            "Z_incremental(c) = sum over V minus <s> of the unnormalised product, for every context by induction on its length; "
-            "per-context normalisation; the back-off recursion over the written entries equals the defining formula for every "
-            "context and word; union n-gram set; single-model identity; tool score = specified (<unk>-mapped) score; equal "
-            "orders never hit the reunification abort, and a machine-checked witness that mixed orders do. Proved over any "
-            "field with an exponential-like E (E(a+b)=E a*E b, E 0=1) and instantiated at the reals with 10^x (Real.rpow). "
-            "PARTIAL: the three streaming passes (sorting, rewindable streams, bounded sequence encoding, threads) are tied "
-            "only through the final ARPA output of bin/interpolate, compared with the compiled Lean driver on seeded tuples of "
-            "lmplz --intermediate models; libm pow/log10 and float32 accumulation are covered by a stated tolerance.",
+    "text": "Lean theorems over an executable model of lm/interpolate, all unbounded (any number of components, orders, "
+            "vocabulary, context length): (1) functional level - union vocabulary + renumbering, per-component longest-suffix "
+            "score with back-offs charged below each component's top order, the incremental normaliser of normalize.cc, the "
+            "written ARPA table: telescoping identity Z_incremental(c) = sum over V minus <s> of the unnormalised product "
+            "(induction on the context); back-off recursion over the written entries = defining formula for every context and "
+            "word, also with <unk>-mapped component scores; per-context normalisation; union n-gram set; single-model identity; "
+            "over any field with an exponential-like E and instantiated at the reals (Real.rpow / logb); (2) code level - pass-1 "
+            "record (longest suffix + from) with pass-2 charging = back-off recursion (LowerProb needs suffix closure, witness); "
+            "the stream recursion Recurse::SameContext/ExtendContext on ContextOrder-sorted streams consumes every record and "
+            "writes exactly the functional values (sorted streams proved to have the grouped shape); BackoffManager queue + "
+            "pass-3 zip: the back-off stream of each order is the SuffixOrder-sorted list of n-grams that get a record, aligned "
+            "with the probability stream iff nothing is stuck and strictly shorter otherwise (the abort of finding K is derived; "
+            "equal orders never hit it; machine-checked witness for mixed orders); BoundedSequenceEncoding round trip for any "
+            "bounds / any number of 64-bit words, and exactly when it shifts by 64 (UB witness). "
+            "PARTIAL: pass 1's k-way stream merge, util::stream (sort, chains, RewindableStream), threads, MergeVocab's hash "
+            "order and float32/long-double rounding are tied only through the final ARPA output of bin/interpolate compared "
+            "with the compiled Lean driver on seeded tuples of lmplz --intermediate models (tolerance 1e-5), and the real "
+            "bounded_sequence_encoding header in-process (ASan/UBSan).",
     "note": "Trusted: Lean kernel + propext/Classical.choice/Quot.sound; statements in lean/Properties/C13.lean; Mathlib's "
-            "Real.rpow; the Python comparator/generators (checks/C13.py, checks/interpgen.py), lean/Driver/C13.lean (Float "
-            "10^x / log10); lmplz as producer of the inputs. Hypotheses of the theorems (prefix closure, no n-gram predicting "
-            "<s>, p(<s>)=1, <unk> only as a unigram with zero back-off, words of n-grams have unigrams) are checked on every "
-            "generated model. Tolerance 1e-5 absolute on log10 values (float32 accumulation in the tool, long double pow/log10). "
-            "Known finding: abort for unequal orders (key unequal-orders-ngram-without-backoff-record).",
-    "technique": "Lean 4 proof (induction over an executable model, abstract exponential + real instantiation) + differential "
-                 "correspondence of bin/interpolate with the compiled Lean driver and an independent Python oracle",
+            "Real.rpow/logb; the Python comparator/generators (checks/C13.py, checks/interpgen.py), lean/Driver/C13.lean (Float "
+            "10^x / log10), harness/c13_bse.cc; lmplz as producer of the inputs. Hypotheses of the theorems (prefix/suffix "
+            "closure, no n-gram predicting <s>, p(<s>)=1, <unk> only as a unigram with zero back-off, words of n-grams have "
+            "unigrams, finite values) are decidable and checked on every generated model. Tolerance 1e-5 absolute on log10 values "
+            "(observed max 2.2e-7). Known findings: abort for unequal orders (unequal-orders-ngram-without-backoff-record); "
+            "uint64 shift by 64 in BoundedSequenceEncoding (bse-zero-width-field-shift-64, repair in repo_patches/).",
+    "technique": "Lean 4 proof (induction / refinement over an executable model, abstract exponential + real instantiation) + "
+                 "differential correspondence of bin/interpolate and the real encoding header with the compiled Lean driver and "
+                 "an independent Python oracle",
 }
 
 REQUIRED = ["KV.C13.z_incremental", "KV.C13.normalised", "KV.C13.formula", "KV.C13.ngram_union",
             "KV.C13.single_identity", "KV.C13.spec_eq_tool", "KV.C13.formula_spec", "KV.C13.pass12_refines",
-            "KV.C13.vocab_union", "KV.C13.ngram_union_renumbered", "KV.C13.pass2_stream_refines", "KV.C13.pass2_on_sorted_streams", "KV.C13.visited_contexts", "KV.C13.pass3_zip", "KV.C13.bse_roundtrip", "KV.C13.bse_no_ub", "KV.C13.bse_shift64_witness", "KV.C13.equal_orders_not_stuck", "KV.C13.abort_witness",
+            "KV.C13.vocab_union", "KV.C13.ngram_union_renumbered", "KV.C13.pass1_on_sorted_streams", "KV.C13.pass1_record_values", "KV.C13.pass2_stream_refines", "KV.C13.pass2_on_sorted_streams", "KV.C13.visited_contexts", "KV.C13.pass3_zip", "KV.C13.bse_roundtrip", "KV.C13.bse_no_ub", "KV.C13.bse_shift64_witness", "KV.C13.equal_orders_not_stuck", "KV.C13.abort_witness",
             "KV.C13.termination_fails_mixed_orders", "KV.C13.formula_real", "KV.C13.normalised_real",
             "KV.C13.interp_nonpos", "KV.C13.z_incremental_real"]
 
@@ -255,7 +264,8 @@ def run_case(ctx, case, bins, dexe, wd, cap_ctx):
     sf = dict(kv.split("=") for kv in stream_line.split(" ")[1:])
     n_high = sum(len(m["entries"].get(k, [])) for m in models for k in range(2, maxo + 1))
     r.detail["stream"] = stream_line
-    if not (sf.get("shape") == "true" and sf.get("consumed") == "true" and G.f64_from_bits(sf["maxdev"]) <= 1e-9):
+    if not (sf.get("shape") == "true" and sf.get("consumed") == "true" and G.f64_from_bits(sf["maxdev"]) <= 1e-9
+            and sf.get("p1shape") == "true" and sf.get("p1ok") == "true"):
         r.status, r.what = "violation", "Lean stream model of pass 2 disagrees with the functional model: " + stream_line
         r.no_input = True
         return r
@@ -628,7 +638,7 @@ def run(ctx):
     found = found_bse
     try:
         quick = ctx.tier == "quick"
-        n = 30 if quick else 400
+        n = 30 if quick else 300
         cap_ctx = 120 if quick else 400
         # fixed coverage first: every kind once, then random kinds
         kinds = ["single", "same-order", "same-corpus-mixed", "nested-mixed", "diff-mixed", "same-order"]
